@@ -62,6 +62,13 @@ func (self ValueAnyObject) Fields() (map[string]*Value, *Interrupt) {
 			self.FieldsInternal[args[0].(ValueString).Inner] = &args[1]
 			return NewValueNull(), nil
 		}),
+		"get_type": NewValueBuiltinFunction(func(executor Executor, cancelCtx *context.Context, span errors.Span, args ...Value) (*Value, *Interrupt) {
+			value, found := self.FieldsInternal[args[0].(ValueString).Inner]
+			if !found {
+				return nil, NewThrowInterrupt(span, fmt.Sprintf("no field named '%s'", args[0].(ValueString).Inner))
+			}
+			return NewValueString((*value).Kind().TypeKind().String()), nil
+		}),
 		"get": NewValueBuiltinFunction(func(executor Executor, cancelCtx *context.Context, span errors.Span, args ...Value) (*Value, *Interrupt) {
 			value := self.FieldsInternal[args[0].(ValueString).Inner]
 			return NewValueOption(value), nil
